@@ -62,8 +62,19 @@ pub struct PReport {
     pub alloc: bool,
 }
 
+/// One element of a pumped cycle.
+#[derive(Clone, Copy, PartialEq, Debug)]
+pub enum PumpOp {
+    Cc(u8, u8),
+    Poll,
+    Tick,
+}
+
 #[derive(Clone, PartialEq, Debug)]
 pub enum PoAct {
+    /// a short cycle of operations repeated `pump_reps` times in one step, every operation judged
+    /// (index into `pump_cycles`): counters that leak or wrap after hundreds of rounds
+    Pump(u16),
     Cc(u8, u8),
     CcProbe(u8, u8),
     /// non-contributing message, expanded (index into `others`)
@@ -103,6 +114,9 @@ pub struct PollSys {
     pub pauses: Vec<u64>,
     /// reset storms offered as single actions: (number of resets, with traffic on another channel in between)
     pub storms: Vec<(u32, bool)>,
+    /// pumped cycles (see `PoAct::Pump`) and the number of repetitions
+    pub pump_cycles: Vec<Vec<PumpOp>>,
+    pub pump_reps: u32,
     pub alphabet: Vec<(u8, u8)>,
     pub probes: Vec<(u8, u8)>,
     pub others: Vec<(u8, u8, u8)>,
@@ -161,6 +175,8 @@ impl PollSys {
             cap: cap_for(timeout, cap_mult),
             pauses: if WRAP16.load(Ordering::Relaxed) { vec![(1 << 16) - 2, 1 << 16, 1 << 20, (1 << 32) - 2, 1 << 32] } else { vec![1 << 20, (1 << 32) - 2, 1 << 32] },
             storms: Vec::new(),
+            pump_cycles: Vec::new(),
+            pump_reps: 300,
             alphabet,
             probes,
             others: noncontrib_small::<PollingParameterNumberMessageScanner>(ch),
@@ -175,6 +191,62 @@ impl PollSys {
 
     pub fn new_scanner(&self) -> PollingParameterNumberMessageScanner {
         PollingParameterNumberMessageScanner::new(Duration::from_micros(self.timeout_us))
+    }
+
+    /// All cycles of length 1..=3 over {8 contributing controllers (value 1), poll, 1 ms tick}.
+    pub fn with_pumps(mut self, max_len: usize) -> Self {
+        let mut ops: Vec<PumpOp> = [98u8, 99, 100, 101, 38, 6, 96, 97].iter().map(|c| PumpOp::Cc(*c, 1)).collect();
+        ops.push(PumpOp::Poll);
+        ops.push(PumpOp::Tick);
+        for a in &ops {
+            self.pump_cycles.push(vec![*a]);
+        }
+        for a in &ops {
+            for b in &ops {
+                if a != b {
+                    self.pump_cycles.push(vec![*a, *b]);
+                }
+            }
+        }
+        if max_len >= 3 {
+            for a in &ops {
+                for b in &ops {
+                    for c in &ops {
+                        if !(a == b && b == c) {
+                            self.pump_cycles.push(vec![*a, *b, *c]);
+                        }
+                    }
+                }
+            }
+        }
+        self
+    }
+
+    fn pump(&self, s: &PoState, cycle: &[PumpOp]) -> Step<PoState> {
+        let mut cur = PoState { sc: s.sc, now: s.now, ob: s.ob };
+        let mut v = Vec::new();
+        'outer: for it in 0..self.pump_reps {
+            for op in cycle {
+                let r = match op {
+                    PumpOp::Cc(c, val) => self.feed_core(&cur, 0xB0 | self.ch, *c, *val),
+                    PumpOp::Poll => self.do_poll(&cur),
+                    PumpOp::Tick => Step { strict: false, next: Some(PoState { sc: cur.sc, now: cur.now + 1, ob: cur.ob }), obs: 0, violations: Vec::new() },
+                };
+                if !r.violations.is_empty() {
+                    for mut x in r.violations {
+                        x.signature = format!("{}/pumped", x.signature);
+                        x.detail = format!("in round {} of the pumped cycle {:?}, at {:?}: {}", it + 1, cycle, op, x.detail);
+                        v.push(x);
+                    }
+                    break 'outer;
+                }
+                match r.next {
+                    Some(n) => cur = n,
+                    None => break 'outer,
+                }
+            }
+        }
+        Step { strict: true, next: if v.is_empty() { Some(cur) } else { None }, obs: 0, violations: v }
     }
 
     /// A timeout that is not a whole number of milliseconds.
@@ -543,6 +615,15 @@ impl System for PollSys {
                 out.push(PoAct::ResetStorm(i as u8));
             }
         }
+        // pumped cycles: length <= 2 from states within 2 steps of the initial state (this includes
+        // every "number selected" state), length 3 from states within 1 step
+        if depth <= 2 {
+            for (i, c) in self.pump_cycles.iter().enumerate() {
+                if c.len() <= 2 || depth <= 1 {
+                    out.push(PoAct::Pump(i as u16));
+                }
+            }
+        }
         out.push(PoAct::TouchAll);
         out.push(PoAct::Reset);
         out.push(PoAct::ResetProbe);
@@ -566,10 +647,10 @@ impl System for PollSys {
         self.key_inner(s)
     }
     fn n_classes(&self) -> usize {
-        11
+        12
     }
     fn class_name(&self, i: usize) -> String {
-        ["feed-contributing-cc", "feed-cc-probe(concretisation)", "feed-other(expanded)", "feed-must-be-transparent", "poll", "tick-1ms", "reset", "reset-probe", "long-pause", "reset-storm", "touch-all-16-channels"][i].to_string()
+        ["feed-contributing-cc", "feed-cc-probe(concretisation)", "feed-other(expanded)", "feed-must-be-transparent", "poll", "tick-1ms", "reset", "reset-probe", "long-pause", "reset-storm", "touch-all-16-channels", "pumped-cycle"][i].to_string()
     }
     fn class_of(&self, a: &PoAct) -> usize {
         match a {
@@ -584,6 +665,7 @@ impl System for PollSys {
             PoAct::Pause(_) => 8,
             PoAct::ResetStorm(_) => 9,
             PoAct::TouchAll => 10,
+            PoAct::Pump(_) => 11,
         }
     }
     fn render(&self, a: &PoAct) -> String {
@@ -603,6 +685,7 @@ impl System for PollSys {
             PoAct::Pause(i) => format!("pause:{}", self.pauses[*i as usize]),
             PoAct::ResetStorm(i) => format!("resetstorm:{}:{}", self.storms[*i as usize].0, self.storms[*i as usize].1),
             PoAct::TouchAll => "touchall".to_string(),
+            PoAct::Pump(i) => format!("pump:{}x{:?}", self.pump_reps, self.pump_cycles[*i as usize]).replace(' ', ""),
             PoAct::Reset => "reset".to_string(),
             PoAct::ResetProbe => "resetprobe".to_string(),
         }
@@ -626,6 +709,7 @@ impl System for PollSys {
                 }
             }
             PoAct::TouchAll => "for c in 0..16 { scanner.feed(&helgoboss_midi::test_util::note_on(c, 1, 1)); scanner.feed(&helgoboss_midi::test_util::control_change(c, 7, 1)); }".to_string(),
+            PoAct::Pump(i) => format!("for _ in 0..{} {{ /* one round of {:?} on channel {} (Cc(n, v) = feed control_change, Poll = poll, Tick = clock += 1) */ }}", self.pump_reps, self.pump_cycles[*i as usize], self.ch),
             PoAct::Reset | PoAct::ResetProbe => "scanner.reset();".to_string(),
         }
     }
@@ -700,6 +784,7 @@ impl PollSys {
                 let ob = Obs { last6: s.ob.last6, last38: s.ob.last38, ..Obs::default() };
                 Step { strict: false, next: Some(PoState { sc, now: s.now, ob }), obs: 0, violations: v }
             }
+            PoAct::Pump(i) => self.pump(s, &self.pump_cycles[*i as usize]),
             PoAct::TouchAll => {
                 set_now_millis(s.now);
                 let mut sc = s.sc;
@@ -788,6 +873,9 @@ fn run_observer(chk: &xs::Check, tier: xs::Tier, pid: &'static str, report: PRep
             let mut sys = PollSys::new(pid, c, t, 1, &v3, true, report).with_timeout_us(t_us);
             if c == channels[0] {
                 sys.storms = vec![(256, false), (65536, false), (65536, true)];
+                if t_us == 0 || t_us == 2000 {
+                    sys = sys.with_pumps(if report.c14 { 3 } else { 2 });
+                }
             }
             // second-step probing: on the first channel with the 2 ms timeout in the quick tier, on
             // every channel and timeout in the thorough tier (first channel: follow-ups
